@@ -61,10 +61,11 @@ def ensure_facts(repo=REPO):
         t0 = time.time()
         if not ok:
             # keep the cache small: drop older trees
-            for old in os.listdir(CACHE):
-                p = os.path.join(CACHE, old)
-                if os.path.isdir(p) and old != key:
-                    shutil.rmtree(p, ignore_errors=True)
+            olds = [os.path.join(CACHE, o) for o in os.listdir(CACHE)
+                    if os.path.isdir(os.path.join(CACHE, o)) and o != key]
+            olds.sort(key=lambda p: os.path.getmtime(p), reverse=True)
+            for p in olds[5:]:
+                shutil.rmtree(p, ignore_errors=True)
             tmp = d + ".tmp"
             shutil.rmtree(tmp, ignore_errors=True)
             os.makedirs(tmp)
